@@ -13,8 +13,9 @@ S0 == [label |-> "", mn |-> "NOP", form |-> "inh", force |-> "", reg |-> "X", su
 Thorough == IOEnv.TIER = "thorough"
 Nums == IF Thorough THEN {<<0,"dec">>, <<1,"dec">>, <<2,"hex2">>, <<5,"bin8">>, <<16,"hex">>, <<255,"dec">>, <<256,"hex4">>, <<257,"dec">>, <<32767,"dec">>, <<32768,"hex">>, <<65535,"hex4">>, <<65,"char">>}
         ELSE {<<0,"dec">>, <<2,"hex2">>, <<5,"dec">>, <<255,"dec">>, <<256,"hex4">>, <<32768,"hex">>, <<65535,"dec">>}
-EquVals == IF Thorough THEN {<<2,"dec">>, <<5,"hex2">>, <<255,"hex2">>, <<256,"hex4">>, <<4660,"hex">>, <<65535,"hex4">>, <<16,"hex4">>}
-           ELSE {<<5,"hex2">>, <<256,"hex4">>, <<16,"hex4">>}
+\* (negative EQU constants too: a symbol stands for its defined constant, sign included)
+EquVals == IF Thorough THEN {<<2,"dec">>, <<5,"hex2">>, <<255,"hex2">>, <<256,"hex4">>, <<4660,"hex">>, <<65535,"hex4">>, <<16,"hex4">>, <<-5,"dec">>, <<-129,"dec">>}
+           ELSE {<<5,"hex2">>, <<256,"hex4">>, <<16,"hex4">>, <<-5,"dec">>}
 Bases == {16, 3584}
 Terms == {N(x[1], x[2]) : x \in Nums} \cup {Sy("KB"), Sy("KA"), Sy("LB"), Sy("LA")}
 Ops == {"+", "-", "*", "/"}
